@@ -1053,3 +1053,15 @@ package genql
 //@ func AsArray
 //@   ensures an-array-is-its-own-rows[C02,C07,C20]: typeis(data, []any) ==> err == nil && result == data.([]any)
 //@   ensures an-object-is-one-row[C02,C07,C20]: typeis(data, Map) ==> err == nil && len(result) == 1 && result[0] == data
+
+// ---------------------------------------------------------------------------
+// a proactive pass over helpers that serve several properties (after the eighth batch showed that most first misses
+// were obligations counted under the properties of a helper's other callers)
+
+// C01/C03: WHERE and HAVING hand the evaluator this query, this row and their own predicate
+//@ func ExecWhere
+//@   at-call Expr assert where-evaluates-its-own-predicate-on-this-row[C01]: arg0 == query && arg1 == current && arg2 == query.whereDefinition.Expr
+//@ func ExecHaving
+//@   ensures no-having[C03]: query.havingDefinition == nil ==> result && err == nil
+//@   ensures having[C03]: query.havingDefinition != nil && err == nil ==> typeis(callresult(Expr, 0), bool) && result == callresult(Expr, 0).(bool)
+//@   at-call Expr assert having-evaluates-its-own-predicate-on-this-row[C03]: arg0 == query && arg1 == current && arg2 == query.havingDefinition.Expr
